@@ -196,6 +196,37 @@ def _r1(run, prog, eff, classes):
             else:
                 run.fail('C18-R1', '%s|UniformEnergyDensity|setter:energy_density|not-installed' % ci.mod.name, ci.mod.relpath, ci.node.lineno,
                          'UniformEnergyDensity.energy_density does not install the new energy density function')
+    # "nothing to do when the value is unchanged" is only true once the derived state has been computed from that value: a field that the
+    # constructor presets directly (self._f = 1) and then assigns through its setter is skipped when the caller asks for exactly the preset
+    for cname in PROFILES + SPECTRA:
+        ci = classes[cname]
+        presets = {}
+        for c_ in prog.mro(ci):
+            init_ = c_.methods.get('__init__')
+            for st_ in (ast.walk(init_) if init_ is not None else ()):
+                if isinstance(st_, ast.Assign) and len(st_.targets) == 1 and isinstance(st_.value, ast.Constant) and self_chain(st_.targets[0]) \
+                        and '.' not in self_chain(st_.targets[0]):
+                    presets.setdefault(self_chain(st_.targets[0]), st_)
+        for c_ in prog.mro(ci):
+            for sname, sfn in c_.setters.items():
+                if len(sfn.args.args) < 2:
+                    continue
+                p_ = sfn.args.args[1].arg
+                for iff in [n for n in sfn.body if isinstance(n, ast.If)]:
+                    t_ = iff.test
+                    if isinstance(t_, ast.Compare) and len(t_.ops) == 1 and isinstance(t_.ops[0], (ast.Eq, ast.Is)) \
+                            and any(isinstance(x, ast.Return) for x in iff.body) and not any(isinstance(x, ast.Raise) for x in ast.walk(iff)):
+                        sides = [t_.left, t_.comparators[0]]
+                        fld = [self_chain(x) for x in sides if self_chain(x)]
+                        if any(isinstance(x, ast.Name) and x.id == p_ for x in sides) and fld and fld[0] in presets:
+                            writes = [f for f in eff.closure(ci, sfn).writes if f != fld[0]]
+                            if writes or eff.closure(ci, sfn).selfcalls:
+                                run.subject('C18-R1')
+                                run.fail('C18-R1', '%s|%s|setter:%s|skipped-at-preset' % (c_.mod.name, cname, sname), c_.mod.relpath, iff.lineno,
+                                         "%s.%s returns early when the new value equals self.%s, but the constructor presets self.%s = %s directly (line %d) "
+                                         "before assigning through this setter: a %s constructed with exactly that value never computes %s from it"
+                                         % (cname, sname, fld[0], fld[0], norm(presets[fld[0]].value), presets[fld[0]].lineno, cname,
+                                            sorted(writes) or 'its derived state'))
     # Laser subscribes configure_geometry to the profile
     laser = [c for c in prog.classes.values() if c.qual == 'cherab.core.laser.node.Laser']
     if not laser:
@@ -362,6 +393,15 @@ def _r3(run, prog):
     ev = SymEval()
     loops = [n for n in ast.walk(fn) if isinstance(n, ast.For)]
     run.subject('C18-R3')
+    # the number of segments is the integer n_segments: offsets generated by a floating-point arange(0, length, step) can number one more
+    # than length / step (numpy documents the count as unreliable for non-integer steps), which puts a segment beyond the laser end
+    fl = [c for l in loops for c in ast.walk(l.iter) if isinstance(c, ast.Call) and dotted(c.func) in ('np.arange', 'numpy.arange', 'arange')
+          and len(c.args) == 3 and not all(isinstance(a, ast.Constant) and isinstance(a.value, int) for a in c.args)]
+    if fl:
+        run.fail('C18-R3', K + 'float-arange', mi.relpath, fl[0].lineno,
+                 'the segment offsets are taken from %s: with a non-integer step the number of offsets depends on rounding and can exceed '
+                 'n_segments, so a segment is placed beyond the laser length' % norm(fl[0]))
+        return
     if len(loops) != 1 or not (isinstance(loops[0].iter, ast.Call) and dotted(loops[0].iter.func) == 'range' and len(loops[0].iter.args) == 1):
         run.undecided('C18-R3', 'generate_segmented_cylinder', 'loop shape')
         return
@@ -648,6 +688,12 @@ _PR = 'cherab/core/model/laser/profile.pyx'
 _LS = 'cherab/core/laser/laserspectrum.pyx'
 _GS = 'cherab/core/model/laser/laserspectrum.pyx'
 MUTANTS = [
+    dict(name='pulse-length-unchanged-shortcut-meets-the-preset', file='cherab/core/model/laser/profile.pyx',
+         find="        self._pulse_length = value\n        self._stddev_z = self._pulse_length * SPEED_OF_LIGHT\n",
+         replace="        if value == self._pulse_length:\n            return\n        self._pulse_length = value\n        self._stddev_z = self._pulse_length * SPEED_OF_LIGHT\n", expect='C18-R1'),
+    dict(name='segment-offsets-from-float-arange', file=_PR if False else 'cherab/core/model/laser/profile.pyx',
+         find="        for i in range(n_segments):\n            segment = Cylinder(name=\"Laser segment {0:d}\".format(i), radius=radius, height=segment_length,\n                                transform=translate(0, 0, i * segment_length))",
+         replace="        for i, z_start in enumerate(np.arange(0, length, segment_length)):\n            segment = Cylinder(name=\"Laser segment {0:d}\".format(i), radius=radius, height=segment_length,\n                                transform=translate(0, 0, z_start))", expect='C18-R3'),
     dict(name='old-segments-detached-over-children', file='cherab/core/laser/node.pyx', find="        for i in self._geometry:\n            i.parent = None", replace="        for i in self.children:\n            i.parent = None", expect='C18-R6'),
     dict(name='beam-cut-off-at-waist-width', file='cherab/core/model/laser/math_functions.pyx', find="        stddev_z2 = self._stddev_waist2 * (1 + ((z_prime) / self._rayleigh_range) ** 2)\n",
          replace="        if r2 > 36 * self._stddev_waist2:\n            return 0\n        stddev_z2 = self._stddev_waist2 * (1 + ((z_prime) / self._rayleigh_range) ** 2)\n", expect='C18-R6'),
